@@ -430,6 +430,13 @@ func runC11(c *Ctx) {
 				c.Info("pairing", w.Name, p.Pos(w.Decl.Pos()), "no sibling: "+why)
 				continue
 			}
+			// the obligation is about codecs of data types (the protocol's codec method names); other functions that
+			// happen to write to an encoder or read from a decoder are helpers of some codec or of a transport
+			std := map[string]bool{"EncodeTo": true, "DecodeFrom": true, "encodeTo": true, "decodeFrom": true, "encodeRequest": true, "decodeRequest": true, "encodeResponse": true, "decodeResponse": true}
+			if !std[w.Fn.Name()] {
+				c.Info("pairing", w.Name, p.Pos(w.Decl.Pos()), "helper that uses a coder (not one of the codec method names): not a data type's codec")
+				continue
+			}
 			c.Fail("pairing", w.Name, p.Pos(w.Decl.Pos()), "codec function has no encoder/decoder sibling: a type that can be written but not read (or vice versa) cannot round-trip")
 			continue
 		}
